@@ -90,7 +90,7 @@ def events(p, names=None):
 
 # ---------------------------------------------------------------------------------------------- breadth first
 def byline_rows(idx, nlines=3, scenario="plain", collect=False, members=2):
-    """scenario: 'plain' (votes + stops, no signals, no exceptions), 'skipall' (member 0 may fire skip_all),
+    """scenario: 'plain' (votes + stops, no signals, no exceptions), 'norun' (plain, but member 1 has run-mode: no-run), 'keep' (plain without stops, every member has unmatched-mode: keep), 'skipall' (member 0 may fire skip_all),
     'abort' (a consideration may raise; handler may re-raise)"""
     fi = idx.method("CsvPaths", "next_by_line")
 
@@ -115,7 +115,7 @@ def byline_rows(idx, nlines=3, scenario="plain", collect=False, members=2):
             matched = True
         else:
             matched = interp.choose(f"matched({recv.name},{ln})", [True, False], memo=False)
-        may_stop = (recv.name == "cp0") if scenario in ("plain", "stops_a") else False
+        may_stop = (recv.name == "cp0") if scenario in ("plain", "stops_a", "norun") else False
         if scenario in ("plain2", "stops_b"):
             may_stop = recv.name == "cp1"
         if may_stop and interp.choose(f"stops({recv.name},{ln})", [False, True], memo=False):
@@ -152,6 +152,7 @@ def byline_rows(idx, nlines=3, scenario="plain", collect=False, members=2):
         "._consider_line": consider,
         ".track_line": track,
         # a member's collect() projection is that member's own: the line the next member considers and the line the caller gets stay the reader's
+        "._limit_unmatched": lambda i, c, r, a, k: Residual(f"limited[{getattr(r, 'name', r)}]({a[0].text if isinstance(a[0], Residual) else a[0]})"),
         ".limit_collection": lambda i, c, r, a, k: Residual(f"limited[{getattr(r, 'name', r)}]({a[0].text if isinstance(a[0], Residual) else a[0]})"),
         "self.results_manager.save": _rec("save"),
         "self.results_manager.complete_run": _rec("complete_run", keep_kwargs=True),
@@ -169,6 +170,11 @@ def byline_rows(idx, nlines=3, scenario="plain", collect=False, members=2):
         for j in range(members):
             store[f"cp{j}.stopped"] = False
             store[f"cp{j}.advance_count"] = 0
+            # run-mode: in scenario 'norun' the second member is switched off (run-mode: no-run)
+            store[f"cp{j}.will_run"] = not (scenario == "norun" and j == 1)
+            # unmatched-mode: in scenario 'keep' every member keeps the lines it did not match (when the caller collects)
+            store[f"cp{j}.unmatched_available"] = scenario == "keep"
+            store[f"cp{j}.unmatched"] = None
         args = {"pathsname": "P", "filename": "F", "collect": collect, "if_all_agree": agree, "collect_when_not_matched": False}
         for p in it.run_all(fi, args=args, store=store):
             p.__dict__["collect"] = collect
